@@ -38,6 +38,9 @@ var extraAnchorFiles = map[string][]string{
 	"C12": {"internal/pkg/table/path.go"},
 }
 
+// crashRelevant: the properties whose statement includes "never crashes" / "without disturbing the sender".
+var crashRelevant = map[string]bool{"C05": true, "C11": true, "C19": true, "C20": true}
+
 // ruleRatchets runs the baseline ratchets over the files the property is anchored in.
 func (c *Ctx) ruleRatchets(cid string) {
 	files := append(append([]string{}, anchorFiles[cid]...), extraAnchorFiles[cid]...)
@@ -57,7 +60,11 @@ func (c *Ctx) ruleRatchets(cid string) {
 	c.ruleCallRatchet("E6.call-ratchet", pkgs, filter, "baselines/calls.json", 5)
 	c.ruleOrderRatchet("E6.order-ratchet", pkgs, filter, "baselines/calls.json", 5)
 	c.ruleConditionRatchet("E6.condition-ratchet", pkgs, filter, "baselines/conds.json", 5)
+	// a panic in the daemon breaks whatever the property promises: the crash causes that have a cheap sound proof
+	if crashRelevant[cid] {
+		c.ruleMakeSizeNonNeg("E5.make-size-nonneg", pkgs, filter, 3)
+	}
 }
 
 // RatchetExpl is appended to every property's explanation: ruleRatchets runs for all of them.
-const RatchetExpl = " In addition, over every function of the files the property is anchored in, four ratchets compare the tree with the committed, reviewed baselines (baselines/*.json, never written at run time): (E4.case-ratchet) no switch lost a named case; (E6.call-ratchet) no function lost a callee or field store, or one of several distinct sites of the same callee (distinct by receiver and arguments), that it does not now reach through a newly called helper; (E6.order-ratchet) in a function that still performs the same calls and stores, no two of them changed places in the strict control-flow order; (E6.condition-ratchet) in a function with the same number of comparisons, none was replaced by a point mutation of itself (another constant, another field, a moved boundary). Each ratchet declines to decide (discharges with the reason) when the function's shape changed beyond what it can compare."
+const RatchetExpl = " In addition, over every function of the files the property is anchored in, four ratchets compare the tree with the committed, reviewed baselines (baselines/*.json, never written at run time): (E4.case-ratchet) no switch lost a named case; (E6.call-ratchet) no function lost a callee or field store, or one of several distinct sites of the same callee (distinct by receiver and arguments), that it does not now reach through a newly called helper; (E6.order-ratchet) in a function that still performs the same calls and stores, no two of them changed places in the strict control-flow order; (E6.condition-ratchet) in a function with the same number of comparisons, none was replaced by a point mutation of itself (another constant, another field, a moved boundary). For C05, C11, C19 and C20, whose statements exclude a crash, (E5.make-size-nonneg) additionally proves every make() size in those files non-negative. Each ratchet declines to decide (discharges with the reason) when the function's shape changed beyond what it can compare."
